@@ -4,8 +4,8 @@ use core::{
 };
 
 use dashu_base::{
-    Approximation::*, BitTest, ConversionError, DivRemEuclid, EstimatedLog2, FloatEncoding, Sign,
-    Signed,
+    Approximation::*, BitTest, ConversionError, DivRem, DivRemEuclid, EstimatedLog2, FloatEncoding,
+    Sign, Signed,
 };
 use dashu_int::{IBig, UBig, Word};
 
@@ -17,7 +17,7 @@ use crate::{
         mode::{HalfAway, HalfEven, Zero},
         Round, Rounded, Rounding,
     },
-    utils::{ilog_exact, shl_digits, shl_digits_in_place, shr_digits},
+    utils::{digit_len, ilog_exact, shl_digits, shl_digits_in_place, shr_digits, split_digits},
 };
 
 impl<R: Round> Context<R> {
@@ -540,9 +540,27 @@ impl<R: Round> Context<R> {
                 let signif = repr.significand * Repr::<B>::BASE.pow(repr.exponent as usize);
                 self.repr_round(Repr::new(signif, 0))
             } else {
-                let num = Repr::new(repr.significand, 0);
-                let den = Repr::new(Repr::<B>::BASE.pow(-repr.exponent as usize).into(), 0);
-                self.repr_div(num, den)
+                let num = Repr::<NewB>::new(repr.significand, 0);
+                let den = Repr::<NewB>::new(Repr::<B>::BASE.pow(-repr.exponent as usize).into(), 0);
+                if num.digits() <= self.precision + den.digits() {
+                    self.repr_div(num, den)
+                } else {
+                    // the quotient has more digits than the precision, which repr_div doesn't
+                    // support: round the integer quotient once, with the whole tail as the fraction
+                    let exp = num.exponent - den.exponent;
+                    let (q, r) = num.significand.div_rem(&den.significand);
+                    let shift = digit_len::<NewB>(&q) - self.precision;
+                    let (hi, lo) = split_digits::<NewB>(q, shift);
+                    let rem = lo * &den.significand + r;
+                    let exp = exp + shift as isize;
+                    if rem.is_zero() {
+                        Exact(Repr::new(hi, exp))
+                    } else {
+                        let scale = den.significand * Repr::<NewB>::BASE.pow(shift);
+                        let adjust = R::round_ratio(&hi, rem, &scale);
+                        Inexact(Repr::new(hi + adjust, exp), adjust)
+                    }
+                }
             }
         } else {
             // if the exponent is large, then we first estimate the result exponent as floor(exponent * log(B) / log(NewB)),
